@@ -109,6 +109,17 @@ func (dc *TraditionalDnsConn) exchange(ctx context.Context, q []byte) (*[]byte, 
 	}
 	defer dc.deleteQueueC(assignedQid)
 
+	// If a query was sent, server should have a reply (even not for this query) in a short time.
+	// This indicates the connection is healthy. Otherwise, this connection might be dead.
+	// The Read deadline will be refreshed in DnsConn.readLoop() after every successful read.
+	// This must happen before the query is written: a reply that is read before the flag
+	// is set would leave the flag (and the short deadline) armed on an idle connection.
+	dc.readDeadlineMu.Lock()
+	if dc.waitingResp.CompareAndSwap(false, true) {
+		dc.c.SetReadDeadline(time.Now().Add(waitingReplyTimeout))
+	}
+	dc.readDeadlineMu.Unlock()
+
 	// Reminder: Set write deadline here is not very useful to avoid dead connections.
 	// Typically, a write operation will time out only if its socket buffer is full.
 	// Ser read deadline is enough.
@@ -118,15 +129,6 @@ func (dc *TraditionalDnsConn) exchange(ctx context.Context, q []byte) (*[]byte, 
 		dc.CloseWithErr(fmt.Errorf("write err, %w", err))
 		return nil, err
 	}
-
-	// If a query was sent, server should have a reply (even not for this query) in a short time.
-	// This indicates the connection is healthy. Otherwise, this connection might be dead.
-	// The Read deadline will be refreshed in DnsConn.readLoop() after every successful read.
-	dc.readDeadlineMu.Lock()
-	if dc.waitingResp.CompareAndSwap(false, true) {
-		dc.c.SetReadDeadline(time.Now().Add(waitingReplyTimeout))
-	}
-	dc.readDeadlineMu.Unlock()
 
 	var resend <-chan time.Time
 	if !dc.isTcp {
